@@ -166,6 +166,45 @@ def append_case(ctx, rng):
         rep.fail('%s:not-appended-after-existing' % kind, case, {'expected': want, 'got': got})
 
 
+def sequence_case(ctx, rng):
+    """two-step sequences in which a later restructuring step discards what an earlier one still needs streamed:
+    duplicate(X) then delete_resource(X); concatenate then delete of the target; duplicate then concatenate"""
+    rep = ctx.report
+    n = rng.choice([0, 1, 3, 40, 1200])
+    rows = [[{'k': i, 'v': 'x%d' % i} for i in range(n)], [{'k': -1, 'v': 'other'}]]
+    desc = canon.make_descriptor([{'name': 'orig', 'fields': [('k', 'integer'), ('v', 'string')]},
+                                  {'name': 'other', 'fields': [('k', 'integer'), ('v', 'string')]}])
+    kind = rng.choice(['dup-then-delete-original', 'dup-then-delete-copy', 'dup-then-concat', 'concat-then-dup'])
+    to_end = rng.random() < 0.5
+    bs = rng.choice([1, 7, 1000])
+    if kind == 'dup-then-delete-original':
+        steps = [DF.duplicate(source='orig', target_name='copy', batch_size=bs, duplicate_to_end=to_end), DF.delete_resource('orig')]
+        want = [('other', rows[1]), ('copy', rows[0])] if to_end else [('copy', rows[0]), ('other', rows[1])]
+    elif kind == 'dup-then-delete-copy':
+        steps = [DF.duplicate(source='orig', target_name='copy', batch_size=bs, duplicate_to_end=to_end), DF.delete_resource('copy')]
+        want = [('orig', rows[0]), ('other', rows[1])]
+    elif kind == 'dup-then-concat':
+        steps = [DF.duplicate(source='other', target_name='copy', batch_size=bs, duplicate_to_end=True),
+                 DF.concatenate({'k': [], 'v': []}, target={'name': 'all'}, resources=['orig', 'other'])]
+        want = [('all', rows[0] + rows[1]), ('copy', rows[1])]
+    else:
+        steps = [DF.concatenate({'k': [], 'v': []}, target={'name': 'all'}, resources=['orig', 'other']),
+                 DF.duplicate(source='all', target_name='copy', batch_size=bs, duplicate_to_end=to_end)]
+        want = [('all', rows[0] + rows[1]), ('copy', rows[0] + rows[1])]
+    case = {'sequence': kind, 'n': n, 'duplicate_to_end': to_end, 'batch_size': bs}
+    real = S.run_real(steps, desc, rows)
+    rep.case('real:sequence:' + kind, case, nontrivial=n > 0)
+    if 'ok' not in real:
+        rep.fail('sequence:%s:unexpected-error' % kind, case, real)
+        return
+    got = [(r['name'], [canon.norm_row(x) for x in r['rows']]) for r in real['ok']]
+    exp = [(nm, [canon.norm_row(canon.enc_row(x)) for x in rw]) for nm, rw in want]
+    if got != exp:
+        lost = sum(len(w[1]) for w in exp) - sum(len(g[1]) for g in got)
+        rep.fail('sequence:%s:%s' % (kind, 'rows-lost' if lost > 0 else 'rows'), case,
+                 {'expected': [(a, len(b)) for a, b in exp], 'got': [(a, len(b)) for a, b in got]})
+
+
 def big_case(ctx, rng):
     """resources above 1000 rows through duplicate (batch boundaries) and concatenate"""
     rep = ctx.report
@@ -202,6 +241,8 @@ def run(ctx):
             append_case(ctx, rng)
         for _ in range(ctx.n(6, 60)):
             big_case(ctx, rng)
+        for _ in range(ctx.n(40, 500)):
+            sequence_case(ctx, rng)
     return ctx.finish(search=P.search_from_disagreements(ctx, oracle, LAYER_A))
 
 
